@@ -10,7 +10,8 @@
 From Coq Require Import ZArith List Reals.
 From Tevec Require Import Base.Prelude Base.Num Base.XR Model.Driver Proofs.Driver Model.Features
      Proofs.Generic Proofs.NoLookahead Proofs.NoLookahead2 Model.Cmp Spec.Extrema Model.Binary Model.Reg
-     Model.MapOps Spec.MapOps.
+     Model.MapOps Spec.MapOps Model.Norm Proofs.IdxRun Proofs.NoLookahead3 Proofs.IdxPrefix Base.F64.
+From Coq Require Import Lia Lra PrimFloat.
 Import ListNotations.
 
 (* ---- (A) no look-ahead ------------------------------------------------------------------------------ *)
@@ -240,6 +241,183 @@ Example C06_example_prefix :
   = firstn 2 (ts_out (ts_vsum_f (A := XR) 2 (Some 1)) true 2 [Some 1%R; None; Some 3%R]).
 Proof. apply C06_prefix_every_feature. auto. Qed.
 
+(* ---- (A'') index-form callbacks that re-read the series through `uget`: the prefix law BIT FOR BIT at EVERY
+   carrier (in particular binary64) ---------------------------------------------------------------------- *)
+(* (9) the rule: two runs of the window-index driver (either body), the prefix run with callback cb1 and driver
+   window w1, the whole run with cb2 and w2.  If before the last position of the prefix both pass the same start
+   index and cb1 returns what cb2 returns (cb1 can only see xs[..k]: "reads the series at positions <= e only"),
+   and at the last position cb1 returns the same OUTPUT, then a whole run that completes makes the prefix run
+   complete with the prefix of its result. *)
+Theorem C06_prefix_index_form_rule :
+  forall (T St O : Type) (cb1 cb2 : St -> option nat * nat * T -> res (St * O))
+         (xs : list T) (k : nat) (body : bool) (w1 w2 : nat) (Inv : nat -> St -> Prop) (s0 : St) (out : list O),
+    1 <= w1 -> 1 <= w2 ->
+    let n := Nat.min k (length xs) in
+    let sf1 := start_of (eff_window body w1 n) in
+    let sf2 := start_of (eff_window body w2 (length xs)) in
+    Inv 0 s0 ->
+    (forall e v s, S e < n -> nth_error xs e = Some v -> Inv e s ->
+       sf1 e = sf2 e /\ cb1 s (sf2 e, e, v) = cb2 s (sf2 e, e, v) /\
+       (forall s' o, cb2 s (sf2 e, e, v) = Ok (s', o) -> Inv (S e) s')) ->
+    (forall e v s s2 o, S e = n -> nth_error xs e = Some v -> Inv e s ->
+       cb2 s (sf2 e, e, v) = Ok (s2, o) -> exists s1, cb1 s (sf1 e, e, v) = Ok (s1, o)) ->
+    idx_run body w2 cb2 s0 xs = Done out -> idx_run body w1 cb1 s0 (firstn k xs) = Done (firstn k out).
+Proof. exact @idx_run_prefix_gen. Qed.
+
+(* (10) the extrema / arg-extrema / rank family, any carrier A (Z, binary64, option R ...), any null dictionary;
+   same min_periods condition as (4).  `Done out -> Done (firstn k out)`: whenever the call on the whole series
+   returns, the call on the prefix returns the prefix, bit for bit (and does not panic either). *)
+Theorem C06_prefix_any_carrier_ts_vmin :
+  forall (A : Type) (NA : Num A) (T : Type) (DT : IsNone T A) (body : bool) (w : nat) (mp : option nat)
+         (xs : list T) (k : nat) (out : list (option A)),
+    1 <= w -> cmp_dom w mp (Nat.min k (length xs)) -> cmp_dom w mp (length xs) ->
+    ts_vmin body w mp xs = Done out -> ts_vmin body w mp (firstn k xs) = Done (firstn k out).
+Proof. exact @ts_vmin_prefix_any. Qed.
+
+Theorem C06_prefix_any_carrier_ts_vmax :
+  forall (A : Type) (NA : Num A) (T : Type) (DT : IsNone T A) (body : bool) (w : nat) (mp : option nat)
+         (xs : list T) (k : nat) (out : list (option A)),
+    1 <= w -> cmp_dom w mp (Nat.min k (length xs)) -> cmp_dom w mp (length xs) ->
+    ts_vmax body w mp xs = Done out -> ts_vmax body w mp (firstn k xs) = Done (firstn k out).
+Proof. exact @ts_vmax_prefix_any. Qed.
+
+Theorem C06_prefix_any_carrier_ts_vargmin :
+  forall (A : Type) (NA : Num A) (T : Type) (DT : IsNone T A) (body : bool) (w : nat) (mp : option nat)
+         (xs : list T) (k : nat) (out : list (option nat)),
+    1 <= w -> cmp_dom w mp (Nat.min k (length xs)) -> cmp_dom w mp (length xs) ->
+    ts_vargmin body w mp xs = Done out -> ts_vargmin body w mp (firstn k xs) = Done (firstn k out).
+Proof. exact @ts_vargmin_prefix_any. Qed.
+
+Theorem C06_prefix_any_carrier_ts_vargmax :
+  forall (A : Type) (NA : Num A) (T : Type) (DT : IsNone T A) (body : bool) (w : nat) (mp : option nat)
+         (xs : list T) (k : nat) (out : list (option nat)),
+    1 <= w -> cmp_dom w mp (Nat.min k (length xs)) -> cmp_dom w mp (length xs) ->
+    ts_vargmax body w mp xs = Done out -> ts_vargmax body w mp (firstn k xs) = Done (firstn k out).
+Proof. exact @ts_vargmax_prefix_any. Qed.
+
+Theorem C06_prefix_any_carrier_ts_vrank :
+  forall (A : Type) (NA : Num A) (T : Type) (DT : IsNone T A) (B : Type) (NB : Num B) (body : bool) (w : nat)
+         (mp : option nat) (pct rev : bool) (xs : list T) (k : nat) (out : list B),
+    1 <= w -> cmp_dom w mp (Nat.min k (length xs)) -> cmp_dom w mp (length xs) ->
+    ts_vrank body w mp pct rev xs = Done out -> ts_vrank body w mp pct rev (firstn k xs) = Done (firstn k out).
+Proof. exact @ts_vrank_prefix_any. Qed.
+
+(* (11) min-max normalisation (window not clamped, min_periods independent of the length: every cut, omitted or
+   explicit min_periods) and the regression-residual statistics (pure callback: the out_of form is unconditional) *)
+Theorem C06_prefix_any_carrier_ts_vminmaxnorm :
+  forall (A : Type) (NA : Num A) (T : Type) (DT : IsNone T A) (tmin tmax : A) (body : bool) (w : nat)
+         (mp : option nat) (xs : list T) (k : nat) (out : list A),
+    1 <= w ->
+    ts_vminmaxnorm tmin tmax body w mp xs = Done out ->
+    ts_vminmaxnorm tmin tmax body w mp (firstn k xs) = Done (firstn k out).
+Proof. exact @ts_vminmaxnorm_prefix_any. Qed.
+
+Theorem C06_prefix_any_carrier_ts_vregx_resid :
+  forall (A : Type) (NA : Num A) (T1 : Type) (D1 : IsNone T1 A) (T2 : Type) (D2 : IsNone T2 A)
+         (k : rstat) (body : bool) (w : nat) (mp : option nat) (xs : list T1) (ys : list T2) (n : nat),
+    1 <= w -> length xs <= length ys ->
+    out_of (ts_vregx_resid k body w mp (firstn n xs) (firstn n ys))
+    = firstn n (out_of (ts_vregx_resid k body w mp xs ys)).
+Proof. exact @resid_prefix_any. Qed.
+
+(* (12) in exact arithmetic (option R) min-max normalisation on data bounded by the sentinels always returns, so
+   the prefix law holds in the unconditional form *)
+Theorem C06_prefix_ts_vminmaxnorm :
+  forall (lo hi : R) (body : bool) (w : nat) (mp : option nat) (xs : list XR) (k : nat),
+    1 <= w -> bounded lo hi xs ->
+    out_of (ts_vminmaxnorm (Some lo) (Some hi) body w mp (firstn k xs))
+    = firstn k (out_of (ts_vminmaxnorm (Some lo) (Some hi) body w mp xs)).
+Proof. exact mmnorm_prefix. Qed.
+
+(* ---- (B'') window-only law for the remaining families (option R) --------------------------------------- *)
+Theorem C06_window_only_ts_vminmaxnorm :
+  forall (lo hi : R) (body : bool) (w : nat) (mp : option nat) (xs ys : list XR) (i j : nat),
+    1 <= w -> bounded lo hi xs -> bounded lo hi ys -> i < length xs -> j < length ys ->
+    win w i xs = win w j ys ->
+    nth_error (out_of (ts_vminmaxnorm (Some lo) (Some hi) body w mp xs)) i
+    = nth_error (out_of (ts_vminmaxnorm (Some lo) (Some hi) body w mp ys)) j.
+Proof. exact mmnorm_window_only. Qed.
+
+Theorem C06_window_only_ts_vregx_resid :   (* resid_mean / resid_std / resid_skew: the windows of both series *)
+  forall (k : rstat) (body : bool) (w : nat) (mp : option nat) (xs ys xs' ys' : list XR) (i j : nat),
+    1 <= w -> length xs = length ys -> length xs' = length ys' -> i < length xs -> j < length xs' ->
+    win w i xs = win w j xs' -> win w i ys = win w j ys' ->
+    nth_error (out_of (ts_vregx_resid k body w mp xs ys)) i
+    = nth_error (out_of (ts_vregx_resid k body w mp xs' ys')) j.
+Proof. exact resid_window_only. Qed.
+
+Theorem C06_window_only_ts_vzscore :
+  forall (mp : option nat) (body : bool) (w : nat) (xs ys : list XR) (i j : nat),
+    1 <= w -> i < length xs -> j < length ys -> win w i xs = win w j ys ->
+    nth_error (ts_out (ts_vzscore_f w mp) body w xs) i = nth_error (ts_out (ts_vzscore_f w mp) body w ys) j.
+Proof. exact zscore_window_only. Qed.
+
+(* non-vacuity of (10)-(11) at binary64: a warm-up cut (k = 2 < w = 3), index body; the whole call returns *)
+Example C06_example_any_carrier_vmin_float :
+  let xs := [1%float; nan; 3%float; 2%float] in
+  exists out, ts_vmin (A := float) (DT := IsNoneF64) true 3 (Some 1) xs = Done out /\
+              ts_vmin (A := float) (DT := IsNoneF64) true 3 (Some 1) (firstn 2 xs) = Done (firstn 2 out).
+Proof.
+  intros xs. eexists. split; [vm_compute; reflexivity|].
+  apply C06_prefix_any_carrier_ts_vmin; [lia|exact I|exact I|vm_compute; reflexivity].
+Qed.
+Example C06_example_any_carrier_vargmax_float :
+  let xs := [1%float; nan; 3%float; 2%float] in
+  exists out, ts_vargmax (A := float) (DT := IsNoneF64) false 3 (Some 1) xs = Done out /\
+              ts_vargmax (A := float) (DT := IsNoneF64) false 3 (Some 1) (firstn 2 xs) = Done (firstn 2 out).
+Proof.
+  intros xs. eexists. split; [vm_compute; reflexivity|].
+  apply C06_prefix_any_carrier_ts_vargmax; [lia|exact I|exact I|vm_compute; reflexivity].
+Qed.
+Example C06_example_any_carrier_vrank_float :
+  let xs := [1%float; nan; 3%float; 2%float] in
+  exists out, ts_vrank (A := float) (DT := IsNoneF64) (B := float) true 3 (Some 1) false false xs = Done out /\
+              ts_vrank (A := float) (DT := IsNoneF64) (B := float) true 3 (Some 1) false false (firstn 2 xs)
+              = Done (firstn 2 out).
+Proof.
+  intros xs. eexists. split; [vm_compute; reflexivity|].
+  apply C06_prefix_any_carrier_ts_vrank; [lia|exact I|exact I|vm_compute; reflexivity].
+Qed.
+Example C06_example_any_carrier_minmaxnorm_float :
+  let xs := [1%float; nan; 3%float; 2%float] in
+  let lo := (-0x1.fffffffffffffp+1023)%float in let hi := 0x1.fffffffffffffp+1023%float in
+  exists out, ts_vminmaxnorm (A := float) (DT := IsNoneF64) lo hi true 3 None xs = Done out /\
+              ts_vminmaxnorm (A := float) (DT := IsNoneF64) lo hi true 3 None (firstn 2 xs) = Done (firstn 2 out).
+Proof.
+  intros xs lo hi. eexists. split; [vm_compute; reflexivity|].
+  apply C06_prefix_any_carrier_ts_vminmaxnorm; [lia|vm_compute; reflexivity].
+Qed.
+Example C06_example_any_carrier_resid_float :
+  let xs := [1%float; 2%float; 4%float; 3%float] in let ys := [2%float; 1%float; nan; 5%float; 7%float] in
+  out_of (ts_vregx_resid (A := float) (D1 := IsNoneF64) (D2 := IsNoneF64) RStd true 3 None (firstn 2 xs) (firstn 2 ys))
+  = firstn 2 (out_of (ts_vregx_resid (A := float) (D1 := IsNoneF64) (D2 := IsNoneF64) RStd true 3 None xs ys)).
+Proof. intros xs ys. apply C06_prefix_any_carrier_ts_vregx_resid; cbn; lia. Qed.
+
+(* non-vacuity of (12) and (B''): two different histories, the same last window of 2 *)
+Example C06_example_bounded : bounded 0 10 [Some 9%R; None; Some 4%R; Some 7%R].
+Proof. intros r [H|[H|[H|[H|[]]]]]; try discriminate; injection H as <-; lra. Qed.
+Example C06_example_window_minmaxnorm :
+  nth_error (out_of (ts_vminmaxnorm (Some 0%R) (Some 10%R) true 2 (Some 1) [Some 9%R; None; Some 4%R; Some 7%R])) 3
+  = nth_error (out_of (ts_vminmaxnorm (Some 0%R) (Some 10%R) true 2 (Some 1) [Some 1%R; Some 4%R; Some 7%R])) 2.
+Proof.
+  apply C06_window_only_ts_vminmaxnorm; cbn [length]; try lia; try reflexivity.
+  - exact C06_example_bounded.
+  - intros r [H|[H|[H|[]]]]; injection H as <-; lra.
+Qed.
+Example C06_example_prefix_minmaxnorm :
+  out_of (ts_vminmaxnorm (Some 0%R) (Some 10%R) false 3 None (firstn 2 [Some 9%R; None; Some 4%R; Some 7%R]))
+  = firstn 2 (out_of (ts_vminmaxnorm (Some 0%R) (Some 10%R) false 3 None [Some 9%R; None; Some 4%R; Some 7%R])).
+Proof. apply C06_prefix_ts_vminmaxnorm; [lia|exact C06_example_bounded]. Qed.
+Example C06_example_window_resid :
+  nth_error (out_of (ts_vregx_resid RSkew false 2 None [Some 9%R; None; Some 4%R; Some 7%R]
+                                                       [Some 1%R; Some 2%R; Some 3%R; Some 5%R])) 3
+  = nth_error (out_of (ts_vregx_resid RSkew false 2 None [Some 4%R; Some 7%R] [Some 3%R; Some 5%R])) 1.
+Proof. apply C06_window_only_ts_vregx_resid; cbn [length]; try lia; reflexivity. Qed.
+Example C06_example_window_zscore :
+  nth_error (ts_out (ts_vzscore_f 2 None) true 2 [Some 9%R; None; Some 4%R; Some 7%R]) 3
+  = nth_error (ts_out (ts_vzscore_f 2 None) true 2 [Some 4%R; Some 7%R]) 1.
+Proof. apply C06_window_only_ts_vzscore; cbn [length]; try lia; reflexivity. Qed.
+
 Print Assumptions C06_prefix_every_feature.
 Print Assumptions C06_prefix_two_series.
 Print Assumptions C06_prefix_slice_form.
@@ -265,3 +443,15 @@ Print Assumptions C06_window_only_wma.
 Print Assumptions C06_window_only_cross_sums.
 Print Assumptions C06_window_only_trend.
 Print Assumptions C06_window_only_slice_form.
+Print Assumptions C06_prefix_index_form_rule.
+Print Assumptions C06_prefix_any_carrier_ts_vmin.
+Print Assumptions C06_prefix_any_carrier_ts_vmax.
+Print Assumptions C06_prefix_any_carrier_ts_vargmin.
+Print Assumptions C06_prefix_any_carrier_ts_vargmax.
+Print Assumptions C06_prefix_any_carrier_ts_vrank.
+Print Assumptions C06_prefix_any_carrier_ts_vminmaxnorm.
+Print Assumptions C06_prefix_any_carrier_ts_vregx_resid.
+Print Assumptions C06_prefix_ts_vminmaxnorm.
+Print Assumptions C06_window_only_ts_vminmaxnorm.
+Print Assumptions C06_window_only_ts_vregx_resid.
+Print Assumptions C06_window_only_ts_vzscore.
